@@ -125,7 +125,9 @@ func (i *Interpreter) evaluateAsyncExpr(expr AsyncExpr, env *Environment) (inter
 	// captured at the spawn and communicates its result through await.
 	asyncEnv := NewChildEnvironment(env.Snapshot(i.globalEnv))
 
-	// Execute the async block in a separate goroutine
+	// Execute the async block in a separate goroutine, with its own recursion
+	// depth counter and type-parameter scope
+	i = i.forEvaluation()
 	go func() {
 		// Check for cancellation before starting
 		select {
